@@ -1416,6 +1416,37 @@ def request(case):
     return case
 
 
+def extra_checks(eng):
+    """StreamTeeHub.__del__ (an object-lifetime effect, outside the Lean model): a hub that dies with k unused
+    copies warns once, naming k, and lets them go; a hub whose copies were all used is silent"""
+    from audiolazy import Stream, thub
+    try:
+        from audiolazy.lazy_stream import MemoryLeakWarning
+    except ImportError:
+        MemoryLeakWarning = Warning
+    bad = []
+    for n in range(0, 4):
+        for used in range(0, n + 1):
+            h = thub([1, 2, 3], n)
+            got = [Stream(h).take(2) for _ in range(used)]
+            with warnings.catch_warnings(record=True) as w:
+                warnings.simplefilter("always")
+                h.__del__()
+                first = [str(x.message) for x in w if issubclass(x.category, MemoryLeakWarning)]
+                h.__del__()
+                again = len([x for x in w if issubclass(x.category, MemoryLeakWarning)]) - len(first)
+            left = n - used
+            want = ["StreamTeeHub requesting %d more copies than needed" % left] if left else []
+            try:
+                Stream(h)
+                after = "a use"
+            except IndexError:
+                after = "IndexError"
+            if first != want or again != 0 or _uses(h) != 0 or after != "IndexError" or got != [[1, 2]] * used:
+                bad.append((n, used, first, again, _uses(h), after))
+    yield ("thub-del-warns-once-with-the-number-of-unused-copies(10)", not bad, "n, used, warnings, again, left, then: %r" % (bad[:3],))
+
+
 # ----------------------------------------------------------------------------------------
 # comparison
 # ----------------------------------------------------------------------------------------
